@@ -41,8 +41,9 @@ def kani_part(ctx, name, appends, pattern, functions, bounds, outside='', assump
     docs = {}
     for hf in appends.values():
         docs.update(common.harness_docs(hf))
+    pats = [pattern] if isinstance(pattern, str) else list(pattern)
     if expected is None:
-        expected = [h for h in docs if pattern in h]
+        expected = [h for h in docs if any(pt in h for pt in pats)]
     tname = f'{ctx.prop}-{name}' + ('-' + features if features else '')
     res, out, rc, wall = common.run_kani(ov, pattern, jobs=jobs, timeout=timeout, features=features, tname=tname, mem_kb=mem_kb)
     logp = os.path.join(common.CACHE, 'logs')
